@@ -2,7 +2,9 @@ package main
 
 import (
 	"context"
+	stdecdsa "crypto/ecdsa"
 	"crypto/ed25519"
+	"crypto/x509"
 	"fmt"
 	"math/big"
 	"sync"
@@ -203,6 +205,31 @@ func runAdapter(r *prng.R, s *out.Sink, tier string) {
 			}
 		}
 	}
+	// the same for the ECDSA adapter (thorough: its key generation takes a while): signatures for digests shorter than,
+	// as long as and longer than the group order, verified with crypto/ecdsa for exactly the digest asked for
+	if tier == "thorough" {
+		var digests [][]byte
+		for _, l := range []int{20, 28, 32, 48} {
+			d := r.Bytes(l)
+			d[0] |= 1
+			digests = append(digests, d)
+		}
+		_, sigs, pkDER, err := adapterRunPK("ecdsa", 2, 1, digests, 10*time.Minute)
+		if err != nil {
+			s.Violate("C19", "ecdsa signing of digests of several lengths failed: "+err.Error(), "")
+		} else if pub, perr := x509.ParsePKIXPublicKey(pkDER); perr != nil {
+			s.Violate("C19", "ecdsa threshold public key does not parse: "+perr.Error(), "")
+		} else {
+			for i, d := range digests {
+				s.Count("ecdsa/sign-verify")
+				s.N++
+				s.Distinct[fmt.Sprintf("ecdsa digest length %d", len(d))] = struct{}{}
+				if !stdecdsa.VerifyASN1(pub.(*stdecdsa.PublicKey), d, sigs[i][0]) {
+					s.Violate("C19", fmt.Sprintf("ecdsa: the signature returned for the %d-byte digest %s does not verify for that digest", len(d), out.Hex(d)), out.Hex(d))
+				}
+			}
+		}
+	}
 	// garbage into ClassifyMsg / OnMsg of an initialised party
 	p := eddsa.NewParty(1, nopLogger{})
 	p.Init([]uint16{1, 2, 3}, 1, func([]byte, bool, uint16) {})
@@ -222,8 +249,23 @@ func runAdapter(r *prng.R, s *out.Sink, tier string) {
 					h[i] = 0xff
 				}
 			}
-			s.Op("hashtoint", true, "adp hashtoint "+out.Hex(h), ecdsa.VerifHashToInt(h).String())
-			_ = big.NewInt
+			got := ecdsa.VerifHashToInt(h)
+			s.Op("hashtoint", true, "adp hashtoint "+out.Hex(h), got.String())
+			// the integer a standard ECDSA verifier derives from this digest (FIPS 186-4 / crypto/ecdsa): the leftmost
+			// 256 bits of the digest, the digest itself when it is shorter. Sign runs the protocol on the adapter's
+			// integer, so a difference means the returned signature is one for another digest than the caller's.
+			if want := refHashToInt(h); got.Cmp(want) != 0 {
+				s.Violate("C19", fmt.Sprintf("ecdsa: for the %d-byte digest %s Sign runs on the integer %s, a standard verifier of that digest uses %s: the signature returned is not one for the digest asked for", l, out.Hex(h), got, want), out.Hex(h))
+			}
 		}
 	}
+}
+
+// refHashToInt is the digest-to-integer conversion of ECDSA over P-256 as the standard states it (leftmost min(256,
+// 8*len) bits), written without reference to the adapter's code.
+func refHashToInt(h []byte) *big.Int {
+	if len(h) > 32 {
+		h = h[:32]
+	}
+	return new(big.Int).SetBytes(h)
 }
